@@ -267,6 +267,10 @@ def c12_configs():
           lambda: NICKernelRegressor(metric_dict={"gamma": 0.5}, missing_label=-999.0), "reg", ml=-999.0),
         c("NadarayaWatsonRegressor(gamma=0.25,missing_label=-999)",
           lambda: NadarayaWatsonRegressor(metric_dict={"gamma": 0.25}, missing_label=-999.0), "reg", ml=-999.0),
+        c("SklearnRegressor(LinearRegression,missing_label=None)",
+          lambda: SklearnRegressor(LinearRegression(), missing_label=None), "reg", ml=None),
+        c("SklearnNormalRegressor(BayesianRidge,missing_label=None)",
+          lambda: SklearnNormalRegressor(BayesianRidge(), missing_label=None), "reg", ml=None),
         c("SklearnClassifier(GaussianNB,missing_label=-1)",
           lambda: SklearnClassifier(GaussianNB(), classes=[0, 1], missing_label=-1, random_state=0), "clf", ml=-1.0),
         c("SklearnClassifier(DecisionTreeClassifier,missing_label=-1)",
@@ -328,6 +332,10 @@ def _pair_job(arg):
         ml = cfg["ml"]
 
         def sent(a, ml=ml):
+            if ml is None:
+                out = np.asarray(a, dtype=float).astype(object)
+                out[np.isnan(np.asarray(a, dtype=float))] = None
+                return out
             return a if ml != ml else np.where(np.isnan(a), ml, a)
 
         use_w = cfg["weights"] and not ones_as_none
